@@ -70,7 +70,12 @@ class DictProvider(LoaderProvider, DumperProvider):
 
             result = {}
             for k, v in items_method():
-                result[key_loader(k)] = value_loader(v)
+                loaded_key = key_loader(k)
+                loaded_value = value_loader(v)
+                try:
+                    result[loaded_key] = loaded_value
+                except TypeError:
+                    raise TypeLoadError(collections.abc.Hashable, k)
 
             return result
 
@@ -97,7 +102,10 @@ class DictProvider(LoaderProvider, DumperProvider):
                     append_trail(e, k)
                     raise
 
-                result[loaded_key] = loaded_value
+                try:
+                    result[loaded_key] = loaded_value
+                except TypeError:
+                    raise append_trail(TypeLoadError(collections.abc.Hashable, k), ItemKey(k))
 
             return result
 
@@ -131,7 +139,10 @@ class DictProvider(LoaderProvider, DumperProvider):
                     has_unexpected_error = True
 
                 if not errors:
-                    result[loaded_key] = loaded_value
+                    try:
+                        result[loaded_key] = loaded_value
+                    except TypeError:
+                        errors.append(append_trail(TypeLoadError(collections.abc.Hashable, k), ItemKey(k)))
 
             if errors:
                 if has_unexpected_error:
